@@ -372,3 +372,193 @@ func c01R11(ic *IC, r *Report) {
 		r.Errorf("R01.11: the loop-variable shortcut (n.gen = nop under a forStmt7/rangeStmt test) was not found in cfg")
 	}
 }
+
+// R01.12: branch polarity outside the operator generators. A run-time closure that can
+// return either successor continues with tnext when the value it branches on is true and
+// with fnext when it is false: `if r.Bool() { return tnext }; return fnext`,
+// `if !ok { return fnext }`. Swapping the two inverts every condition built from that
+// construct (a map lookup used as condition, a call returning bool, a type switch clause).
+// Conditions that are not a plain boolean read (comparisons of indexes, type identities) are
+// not judged. A boolean literal stored right before a return must agree with the successor.
+func c01R12(ic *IC, r *Report) {
+	info := ic.Info
+	nGen, nIfs := 0, 0
+	for _, name := range sortedKeys(ic.F) {
+		fi := ic.F[name]
+		if fi.Decl.Body == nil || fi.Obj == nil || fi.Decl.Recv != nil {
+			continue
+		}
+		sig := fi.Obj.Type().(*types.Signature)
+		if sig.Params().Len() != 1 || sig.Results().Len() != 0 || !isNamedPtr(sig.Params().At(0).Type(), "node") {
+			continue
+		}
+		// successor variables
+		succ := map[types.Object]string{}
+		ast.Inspect(fi.Decl.Body, func(n ast.Node) bool {
+			as, ok := n.(*ast.AssignStmt)
+			if !ok || len(as.Lhs) != 1 || len(as.Rhs) != 1 {
+				return true
+			}
+			id, ok := as.Lhs[0].(*ast.Ident)
+			if !ok {
+				return true
+			}
+			if c, ok := unparen(as.Rhs[0]).(*ast.CallExpr); ok && len(c.Args) == 1 {
+				if se, ok := unparen(c.Args[0]).(*ast.SelectorExpr); ok && (se.Sel.Name == "tnext" || se.Sel.Name == "fnext") {
+					if xid, ok := unparen(se.X).(*ast.Ident); ok && xid.Name == "n" {
+						succ[info.ObjectOf(id)] = se.Sel.Name
+					}
+				}
+			}
+			return true
+		})
+		if len(succ) < 2 {
+			continue
+		}
+		retOf := func(stmts []ast.Stmt) string {
+			if len(stmts) == 0 {
+				return ""
+			}
+			if rs, ok := stmts[len(stmts)-1].(*ast.ReturnStmt); ok && len(rs.Results) == 1 {
+				if id, ok := unparen(rs.Results[0]).(*ast.Ident); ok {
+					return succ[info.ObjectOf(id)]
+				}
+			}
+			return ""
+		}
+		// polarity of a condition: +1 plain boolean read, -1 its negation, 0 not judged
+		var pol func(e ast.Expr) int
+		isBoolRead := func(e ast.Expr) bool {
+			switch x := unparen(e).(type) {
+			case *ast.CallExpr:
+				if se, ok := unparen(x.Fun).(*ast.SelectorExpr); ok && se.Sel.Name == "Bool" && len(x.Args) == 0 {
+					return true
+				}
+			case *ast.Ident:
+				if t := info.TypeOf(x); t != nil && types.Identical(t.Underlying(), types.Typ[types.Bool]) {
+					if _, isVar := info.ObjectOf(x).(*types.Var); isVar {
+						return true
+					}
+				}
+			}
+			return false
+		}
+		pol = func(e ast.Expr) int {
+			e = unparen(e)
+			if isBoolRead(e) {
+				return 1
+			}
+			switch x := e.(type) {
+			case *ast.UnaryExpr:
+				if x.Op == token.NOT {
+					return -pol(x.X)
+				}
+			case *ast.BinaryExpr:
+				if x.Op == token.LAND {
+					// `fnext != nil && !b`: successor-presence tests are neutral
+					neutral := func(y ast.Expr) bool {
+						if be, ok := unparen(y).(*ast.BinaryExpr); ok && (be.Op == token.NEQ || be.Op == token.EQL) {
+							if id, ok := unparen(be.X).(*ast.Ident); ok && succ[info.ObjectOf(id)] != "" {
+								return true
+							}
+						}
+						return false
+					}
+					switch {
+					case neutral(x.X):
+						return pol(x.Y)
+					case neutral(x.Y):
+						return pol(x.X)
+					}
+					a, b := pol(x.X), pol(x.Y)
+					if a == b {
+						return a
+					}
+				}
+			}
+			return 0
+		}
+		var bad []string
+		judged := 0
+		for _, fl := range (&c02ctx{ic: ic}).closuresOf(fi) {
+			ast.Inspect(fl.Body, func(n ast.Node) bool {
+				switch x := n.(type) {
+				case *ast.IfStmt:
+					p := pol(x.Cond)
+					s := retOf(x.Body.List)
+					if p == 0 || s == "" {
+						return true
+					}
+					// only the plain form: the body stores and returns, nothing else decides; a
+					// body that stores a boolean literal is judged by that literal (below)
+					simple := true
+					for i, st := range x.Body.List {
+						if i == len(x.Body.List)-1 {
+							break
+						}
+						ast.Inspect(st, func(m ast.Node) bool {
+							switch y := m.(type) {
+							case *ast.IfStmt, *ast.ReturnStmt, *ast.SwitchStmt, *ast.ForStmt, *ast.RangeStmt:
+								simple = false
+							case *ast.CallExpr:
+								if isCallTo(info, y, "reflect.Value.SetBool") && len(y.Args) == 1 {
+									if l := types.ExprString(y.Args[0]); l == "true" || l == "false" {
+										simple = false
+									}
+								}
+							}
+							return true
+						})
+					}
+					if !simple {
+						return true
+					}
+					judged++
+					want := "tnext"
+					if p < 0 {
+						want = "fnext"
+					}
+					if s != want {
+						bad = append(bad, fmt.Sprintf("if %s { ... return %s } at %s", types.ExprString(x.Cond), s, ic.pos(x.Pos())))
+					}
+				case *ast.BlockStmt:
+					// SetBool(<literal>) directly followed by a return of a successor
+					for i := 0; i+1 < len(x.List); i++ {
+						es, ok := x.List[i].(*ast.ExprStmt)
+						if !ok {
+							continue
+						}
+						c, ok := es.X.(*ast.CallExpr)
+						if !ok || !isCallTo(info, c, "reflect.Value.SetBool") || len(c.Args) != 1 {
+							continue
+						}
+						lit := types.ExprString(c.Args[0])
+						if lit != "true" && lit != "false" {
+							continue
+						}
+						s := retOf(x.List[i+1 : i+2])
+						if s == "" {
+							continue
+						}
+						judged++
+						if (lit == "true") != (s == "tnext") {
+							bad = append(bad, fmt.Sprintf("SetBool(%s) followed by return %s at %s", lit, s, ic.pos(es.Pos())))
+						}
+					}
+				}
+				return true
+			})
+		}
+		if judged == 0 {
+			continue
+		}
+		nGen++
+		nIfs += judged
+		r.Check(len(bad) == 0, "R01.12", name+"/branch-polarity", ic.pos(fi.Decl.Pos()), fmt.Sprintf("%d branch decisions: a true value continues with tnext, a false one with fnext", judged),
+			"the generator "+name+" continues with the wrong successor: "+strings.Join(bad, "; ")+": every condition built from this construct takes the other branch")
+	}
+	r.Info["branching_generators"] = nGen
+	if nGen < 10 || nIfs < 40 {
+		r.Errorf("R01.12: only %d generators with %d judged branch decisions (10 and 40 expected)", nGen, nIfs)
+	}
+}
